@@ -1,8 +1,11 @@
 import FiberModel.C08.Known
 import FiberModel.C04.PathLemmas
 /-
-C08 — helper lemmas: prefix arithmetic, case folding, the loop invariant of `App.ErrorHandler`'s
-fold, the characterisation of `innermost`, uniqueness of the best candidate, parameter-free keys.
+C08 — helper lemmas: prefix arithmetic, case folding, the order the loop of `App.ErrorHandler`
+maximises (rank, then prefix), the loop invariant of its fold, uniqueness of the best candidate, the
+characterisation of the spec's `innermost`, and the generic theorem `select_eq_spec_of_cover`
+(whatever reading of pattern prefixes the spec uses: if it agrees with what the code computes for
+the pattern keys of the table, the loop returns the spec's choice).
 -/
 namespace C08
 open B C04
@@ -147,84 +150,252 @@ theorem hasMountPrefix_eq_contains' (cfg : Cfg) (path k : Bytes) :
     hasMountPrefix cfg path (ensureSlash k) = contains cfg k path := by
   rw [hasMountPrefix_fold, hmpRaw_eq_containsRaw]; rfl
 
+/-! ### Go's string order -/
+
+theorem bytesLt_irrefl (a : Bytes) : bytesLt a a = false := by
+  induction a with
+  | nil => rfl
+  | cons x t ih => simp [bytesLt, ih]
+
+theorem bytesLt_trans {a c d : Bytes} (h1 : bytesLt a c = true) (h2 : bytesLt c d = true) : bytesLt a d = true := by
+  induction a generalizing c d with
+  | nil =>
+    cases c with
+    | nil => simp [bytesLt] at h1
+    | cons y t =>
+      cases d with
+      | nil => simp [bytesLt] at h2
+      | cons z u => simp [bytesLt]
+  | cons x s ih =>
+    cases c with
+    | nil => simp [bytesLt] at h1
+    | cons y t =>
+      cases d with
+      | nil => simp [bytesLt] at h2
+      | cons z u =>
+        simp only [bytesLt, Bool.or_eq_true, decide_eq_true_eq, Bool.and_eq_true, beq_iff_eq] at h1 h2 ⊢
+        rcases h1 with h1 | ⟨h1, h1'⟩
+        · rcases h2 with h2 | ⟨h2, _⟩
+          · left; omega
+          · left; omega
+        · rcases h2 with h2 | ⟨h2, h2'⟩
+          · left; omega
+          · right; exact ⟨by omega, ih h1' h2'⟩
+
+theorem bytesLt_total {a c : Bytes} (h : a ≠ c) : bytesLt a c = true ∨ bytesLt c a = true := by
+  induction a generalizing c with
+  | nil =>
+    cases c with
+    | nil => exact absurd rfl h
+    | cons y t => left; simp [bytesLt]
+  | cons x s ih =>
+    cases c with
+    | nil => right; simp [bytesLt]
+    | cons y t =>
+      simp only [bytesLt, Bool.or_eq_true, decide_eq_true_eq, Bool.and_eq_true, beq_iff_eq]
+      by_cases hxy : x = y
+      · subst hxy
+        have : s ≠ t := fun hh => h (by rw [hh])
+        rcases ih this with h' | h'
+        · left; right; exact ⟨rfl, h'⟩
+        · right; right; exact ⟨rfl, h'⟩
+      · by_cases hlt : x < y
+        · left; left; exact hlt
+        · right; left; omega
+
+theorem bytesLt_asymm {a c : Bytes} (h : bytesLt a c = true) : bytesLt c a = false := by
+  cases hh : bytesLt c a with
+  | false => rfl
+  | true => have := bytesLt_trans h hh; rw [bytesLt_irrefl] at this; cases this
+
+theorem sortsBefore_eq_bytesLt (a c : Bytes) : sortsBefore a c = bytesLt a c := by
+  induction a generalizing c with
+  | nil => cases c <;> rfl
+  | cons x s ih =>
+    cases c with
+    | nil => rfl
+    | cons y t =>
+      simp only [sortsBefore, bytesLt]
+      by_cases hxy : x = y
+      · subst hxy; simp [ih]
+      · simp [hxy]
+
+/-! ### the order the loop maximises: rank first, then the prefix that sorts last -/
+
+/-- `a` is taken rather than `c` -/
+def Pref (a c : Nat × Bytes) : Prop := a.1 > c.1 ∨ (a.1 = c.1 ∧ bytesLt c.2 a.2 = true)
+
+instance (a c : Nat × Bytes) : Decidable (Pref a c) := by unfold Pref; exact inferInstance
+
+theorem pref_irrefl (a : Nat × Bytes) : ¬ Pref a a := by
+  unfold Pref; simp [bytesLt_irrefl]
+
+theorem pref_trans {a c d : Nat × Bytes} (h1 : Pref a c) (h2 : Pref c d) : Pref a d := by
+  unfold Pref at *
+  rcases h1 with h1 | ⟨h1, h1'⟩
+  · rcases h2 with h2 | ⟨h2, _⟩
+    · left; omega
+    · left; omega
+  · rcases h2 with h2 | ⟨h2, h2'⟩
+    · left; omega
+    · right; exact ⟨by omega, bytesLt_trans h2' h1'⟩
+
+theorem pref_total {a c : Nat × Bytes} (h : a ≠ c) : Pref a c ∨ Pref c a := by
+  unfold Pref
+  obtain ⟨a1, a2⟩ := a
+  obtain ⟨c1, c2⟩ := c
+  simp only
+  by_cases h1 : a1 = c1
+  · subst h1
+    have : a2 ≠ c2 := fun hh => h (by rw [hh])
+    rcases bytesLt_total this with h' | h'
+    · right; right; exact ⟨rfl, h'⟩
+    · left; right; exact ⟨rfl, h'⟩
+  · by_cases hlt : a1 > c1
+    · left; left; exact hlt
+    · right; left; omega
+
+theorem pref_asymm {a c : Nat × Bytes} (h : Pref a c) : ¬ Pref c a :=
+  fun h' => pref_irrefl a (pref_trans h h')
+
+/-- negative transitivity: "not taken rather than" is transitive -/
+theorem not_pref_trans {a c d : Nat × Bytes} (h1 : ¬ Pref a c) (h2 : ¬ Pref c d) : ¬ Pref a d := by
+  intro h
+  by_cases hcd : c = d
+  · subst hcd; exact h1 h
+  · rcases pref_total hcd with h' | h'
+    · exact h2 h'
+    · exact h1 (pref_trans h h')
+
+theorem eq_of_not_pref {a c : Nat × Bytes} (h1 : ¬ Pref a c) (h2 : ¬ Pref c a) : a = c := by
+  by_cases h : a = c
+  · exact h
+  · rcases pref_total h with h' | h'
+    · exact absurd h' h1
+    · exact absurd h' h2
+
 /-! ### the loop -/
 
-/-- length of the key as the loop compares it -/
-def klen (m : Mounted) : Nat := (ensureSlash m.pre).length
+/-- a candidate as the loop sees it, with its rank -/
+def Cand (chk : C02.Constraint → Bytes → Bool) (cfg : Cfg) (path : Bytes) (m : Mounted) (r : Nat) : Prop :=
+  m.pre ≠ [] ∧ m.own ≠ none ∧ rankOf chk cfg path m.pre = some r
 
-/-- a candidate as the loop sees it -/
-def Cand (cfg : Cfg) (path : Bytes) (m : Mounted) : Prop :=
-  m.pre ≠ [] ∧ m.own ≠ none ∧ hasMountPrefix cfg path (ensureSlash m.pre) = true
+/-- what the loop compares -/
+def sc (m : Mounted) (r : Nat) : Nat × Bytes := (r, ensureSlash m.pre)
 
-instance (cfg : Cfg) (path : Bytes) (m : Mounted) : Decidable (Cand cfg path m) := by
-  unfold Cand; exact inferInstance
+theorem mem_range'_one {n k : Nat} (h : k ∈ List.range' 1 n) : 1 ≤ k ∧ k ≤ n := by
+  rw [List.mem_range'_1] at h; omega
 
-theorem step_of_not_cand {cfg path acc m} (h : ¬ Cand cfg path m) : step cfg path acc m = acc := by
-  unfold step Cand at *
-  by_cases h1 : m.pre = []
+theorem mountPrefixLen_some {chk segs det path n} (h : mountPrefixLen chk segs det path = some n) :
+    1 ≤ n ∧ n ≤ det.length ∧ cutMatches chk segs det path n = true := by
+  unfold mountPrefixLen at h
+  have hm := List.mem_of_find?_eq_some h
+  have hp := List.find?_some h
+  have := mem_range'_one hm
+  exact ⟨this.1, this.2, hp⟩
+
+theorem rankOf_pos {chk cfg path k r} (h : rankOf chk cfg path k = some r) : 0 < r := by
+  unfold rankOf at h
+  by_cases hp : isPatternKey k = true
+  · simp only [hp, if_true] at h
+    cases hk : parseKey cfg k with
+    | none => simp [hk] at h
+    | some segs =>
+      simp only [hk, Option.map_eq_some_iff] at h
+      obtain ⟨n, hn, rfl⟩ := h
+      have := (mountPrefixLen_some hn).1
+      omega
+  · simp only [hp] at h
+    by_cases hh : hasMountPrefix cfg path (ensureSlash k) = true
+    · simp [hh] at h; omega
+    · simp [hh] at h
+
+theorem step_of_not_cand {chk cfg path acc m} (h : ∀ r, ¬ Cand chk cfg path m r) :
+    step chk cfg path acc m = acc := by
+  unfold step
+  by_cases h1 : m.pre = [] ∨ m.own = none
   · simp [h1]
-  · by_cases h2 : m.own = none
-    · simp [h2]
-    · have h3 : hasMountPrefix cfg path (ensureSlash m.pre) = false := by
-        cases hh : hasMountPrefix cfg path (ensureSlash m.pre) with
-        | false => rfl
-        | true => exact absurd ⟨h1, h2, hh⟩ h
-      simp [h3]
+  · simp only [h1, if_false]
+    cases hr : rankOf chk cfg path m.pre with
+    | none => rfl
+    | some r =>
+      have h1' : m.pre ≠ [] ∧ m.own ≠ none := by
+        constructor
+        · intro hh; exact h1 (Or.inl hh)
+        · intro hh; exact h1 (Or.inr hh)
+      exact absurd ⟨h1'.1, h1'.2, hr⟩ (h r)
 
-theorem step_of_cand {cfg path acc m} (h : Cand cfg path m) :
-    step cfg path acc m = if klen m > acc.2 then (m.own, klen m) else acc := by
-  unfold step klen
+theorem step_of_cand {chk cfg path acc m r} (h : Cand chk cfg path m r) :
+    step chk cfg path acc m =
+      if Pref (sc m r) (acc.rank, acc.pre) then ⟨m.own, ensureSlash m.pre, r⟩ else acc := by
+  unfold step
   obtain ⟨h1, h2, h3⟩ := h
-  simp [h1, h2, h3]
+  have : ¬ (m.pre = [] ∨ m.own = none) := by
+    intro hh; rcases hh with hh | hh
+    · exact h1 hh
+    · exact h2 hh
+  simp only [this, if_false, h3]
+  rfl
+
+theorem cand_rank_unique {chk cfg path m r t} (h1 : Cand chk cfg path m r) (h2 : Cand chk cfg path m t) : r = t := by
+  have := h1.2.2.symm.trans h2.2.2
+  simpa using this
 
 /-- loop invariant of the fold in `App.ErrorHandler` -/
-theorem fold_inv (cfg : Cfg) (path : Bytes) (l : List Mounted) (acc : Option Own × Nat) :
-    let r := l.foldl (step cfg path) acc
-    acc.2 ≤ r.2 ∧ (∀ m ∈ l, Cand cfg path m → klen m ≤ r.2) ∧
-    (r = acc ∨ ∃ m ∈ l, Cand cfg path m ∧ r = (m.own, klen m) ∧ acc.2 < klen m) := by
+theorem fold_inv (chk : C02.Constraint → Bytes → Bool) (cfg : Cfg) (path : Bytes) (l : List Mounted) (acc : Acc) :
+    let res := l.foldl (step chk cfg path) acc
+    ¬ Pref (acc.rank, acc.pre) (res.rank, res.pre) ∧
+    (∀ m ∈ l, ∀ r, Cand chk cfg path m r → ¬ Pref (sc m r) (res.rank, res.pre)) ∧
+    (res = acc ∨ ∃ m ∈ l, ∃ r, Cand chk cfg path m r ∧ res = ⟨m.own, ensureSlash m.pre, r⟩) := by
   induction l generalizing acc with
-  | nil => simp
+  | nil => exact ⟨pref_irrefl _, by simp, Or.inl rfl⟩
   | cons m t ih =>
     simp only [List.foldl_cons]
-    have ih' := ih (step cfg path acc m)
+    have ih' := ih (step chk cfg path acc m)
     simp only at ih'
     obtain ⟨hA, hB, hC⟩ := ih'
-    by_cases hc : Cand cfg path m
-    · rw [step_of_cand hc] at hA hB hC ⊢
-      by_cases hgt : klen m > acc.2
-      · simp only [hgt, if_true] at hA hB hC ⊢
-        have hA' : klen m ≤ (List.foldl (step cfg path) (m.own, klen m) t).2 := hA
-        refine ⟨by omega, ?_, ?_⟩
-        · intro x hx hcx
+    by_cases hc : ∃ r, Cand chk cfg path m r
+    · obtain ⟨r, hc⟩ := hc
+      rw [step_of_cand hc] at hA hB hC ⊢
+      by_cases hp : Pref (sc m r) (acc.rank, acc.pre)
+      · simp only [hp, if_true] at hA hB hC ⊢
+        have hA' : ¬ Pref (sc m r) ((List.foldl (step chk cfg path) ⟨m.own, ensureSlash m.pre, r⟩ t).rank,
+            (List.foldl (step chk cfg path) ⟨m.own, ensureSlash m.pre, r⟩ t).pre) := hA
+        refine ⟨fun hh => hA' (pref_trans hp hh), ?_, ?_⟩
+        · intro x hx r' hcx
           rcases List.mem_cons.mp hx with rfl | hx
-          · exact hA'
-          · exact hB x hx hcx
-        · rcases hC with hC | ⟨x, hx, hcx, hr, hlt⟩
-          · exact Or.inr ⟨m, by simp, hc, hC, hgt⟩
-          · have hlt' : klen m < klen x := hlt
-            exact Or.inr ⟨x, List.mem_cons_of_mem _ hx, hcx, hr, by omega⟩
-      · simp only [hgt, if_false] at hA hB hC ⊢
+          · have := cand_rank_unique hc hcx
+            subst this
+            exact hA'
+          · exact hB x hx r' hcx
+        · rcases hC with hC | ⟨x, hx, r', hcx, hr⟩
+          · exact Or.inr ⟨m, by simp, r, hc, hC⟩
+          · exact Or.inr ⟨x, List.mem_cons_of_mem _ hx, r', hcx, hr⟩
+      · simp only [hp, if_false] at hA hB hC ⊢
         refine ⟨hA, ?_, ?_⟩
-        · intro x hx hcx
+        · intro x hx r' hcx
           rcases List.mem_cons.mp hx with rfl | hx
-          · omega
-          · exact hB x hx hcx
-        · rcases hC with hC | ⟨x, hx, hcx, hr, hlt⟩
+          · have := cand_rank_unique hc hcx
+            subst this
+            exact not_pref_trans hp hA
+          · exact hB x hx r' hcx
+        · rcases hC with hC | ⟨x, hx, r', hcx, hr⟩
           · exact Or.inl hC
-          · exact Or.inr ⟨x, List.mem_cons_of_mem _ hx, hcx, hr, hlt⟩
-    · rw [step_of_not_cand hc] at hA hB hC ⊢
+          · exact Or.inr ⟨x, List.mem_cons_of_mem _ hx, r', hcx, hr⟩
+    · have hc' : ∀ r, ¬ Cand chk cfg path m r := fun r hh => hc ⟨r, hh⟩
+      rw [step_of_not_cand hc'] at hA hB hC ⊢
       refine ⟨hA, ?_, ?_⟩
-      · intro x hx hcx
+      · intro x hx r' hcx
         rcases List.mem_cons.mp hx with rfl | hx
-        · exact absurd hcx hc
-        · exact hB x hx hcx
-      · rcases hC with hC | ⟨x, hx, hcx, hr, hlt⟩
+        · exact absurd hcx (hc' r')
+        · exact hB x hx r' hcx
+      · rcases hC with hC | ⟨x, hx, r', hcx, hr⟩
         · exact Or.inl hC
-        · exact Or.inr ⟨x, List.mem_cons_of_mem _ hx, hcx, hr, hlt⟩
+        · exact Or.inr ⟨x, List.mem_cons_of_mem _ hx, r', hcx, hr⟩
 
-/-- `x` is a candidate of `l` with the longest prefix -/
-def Best (cfg : Cfg) (l : List Mounted) (path : Bytes) (x : Mounted) : Prop :=
-  x ∈ l ∧ Cand cfg path x ∧ ∀ y ∈ l, Cand cfg path y → klen y ≤ klen x
+/-- `x` is a candidate of `l` that no candidate of `l` is taken rather than -/
+def Best (chk : C02.Constraint → Bytes → Bool) (cfg : Cfg) (l : List Mounted) (path : Bytes) (x : Mounted) (r : Nat) : Prop :=
+  x ∈ l ∧ Cand chk cfg path x r ∧ ∀ y ∈ l, ∀ t, Cand chk cfg path y t → ¬ Pref (sc y t) (sc x r)
 
 theorem nodup_map_inj {α β} (f : α → β) {l : List α} (h : (l.map f).Nodup) {a b : α}
     (ha : a ∈ l) (hb : b ∈ l) (hf : f a = f b) : a = b := by
@@ -240,209 +411,107 @@ theorem nodup_map_inj {α β} (f : α → β) {l : List α} (h : (l.map f).Nodup
       · rw [hbx] at hf; exact absurd hf (h.1 a hat)
       · exact ih h.2 hat hbt
 
-theorem cand_prefix {cfg : Cfg} {path : Bytes} {m : Mounted} (h : Cand cfg path m) :
-    fold cfg (ensureSlash m.pre) <+: fold cfg path := by
-  have := h.2.2
-  rw [hasMountPrefix_fold, hmpRaw_eq_containsRaw] at this
-  exact containsRaw_prefix this
-
-theorem best_unique {cfg : Cfg} {l : List Mounted} {path : Bytes}
-    (hnd : (l.map (fun m => normKey cfg m.pre)).Nodup) {x y : Mounted}
-    (hx : Best cfg l path x) (hy : Best cfg l path y) : x = y := by
-  have h1 := hx.2.2 y hy.1 hy.2.1
-  have h2 := hy.2.2 x hx.1 hx.2.1
-  have hl : (fold cfg (ensureSlash x.pre)).length = (fold cfg (ensureSlash y.pre)).length := by
-    simp only [fold_length]; unfold klen at h1 h2; omega
-  have hp := prefix_eq_of_length_eq (cand_prefix hx.2.1) (cand_prefix hy.2.1) hl
-  apply nodup_map_inj (fun m => normKey cfg m.pre) hnd hx.1 hy.1
-  simp only [normKey, hx.2.1.1, hy.2.1.1, if_false]
-  exact hp
+theorem best_unique {chk cfg} {l : List Mounted} {path : Bytes}
+    (hnd : (l.map (fun m => slashKey m.pre)).Nodup) {x y : Mounted} {r t : Nat}
+    (hx : Best chk cfg l path x r) (hy : Best chk cfg l path y t) : x = y := by
+  have h1 := hx.2.2 y hy.1 t hy.2.1
+  have h2 := hy.2.2 x hx.1 r hx.2.1
+  have he := eq_of_not_pref h1 h2
+  apply nodup_map_inj (fun m => slashKey m.pre) hnd hx.1 hy.1
+  simp only [slashKey, hx.2.1.1, hy.2.1.1, if_false, mountedAt]
+  have := congrArg Prod.snd he
+  simpa [sc] using this.symm
 
 /-- what the fold returns: nothing if there is no candidate, else the best candidate's handler -/
-theorem select_char (cfg : Cfg) (l : List Mounted) (path : Bytes) :
-    ((∀ m ∈ l, ¬ Cand cfg path m) ∧ select cfg l path = none) ∨
-    (∃ x, Best cfg l path x ∧ select cfg l path = x.own) := by
-  have h := fold_inv cfg path l (none, 0)
+theorem select_char (chk : C02.Constraint → Bytes → Bool) (cfg : Cfg) (l : List Mounted) (path : Bytes) :
+    ((∀ m ∈ l, ∀ r, ¬ Cand chk cfg path m r) ∧ select chk cfg l path = none) ∨
+    (∃ x r, Best chk cfg l path x r ∧ select chk cfg l path = x.own) := by
+  have h := fold_inv chk cfg path l ⟨none, [], 0⟩
   simp only at h
   obtain ⟨_, hB, hC⟩ := h
   unfold select
-  rcases hC with hC | ⟨x, hx, hcx, hr, _⟩
+  rcases hC with hC | ⟨x, hx, r, hcx, hr⟩
   · left
     refine ⟨?_, by rw [hC]⟩
-    intro m hm hc
-    have := hB m hm hc
+    intro m hm r hc
+    have := hB m hm r hc
     rw [hC] at this
-    have hne : (ensureSlash m.pre) ≠ [] := ensureSlash_ne_nil _
-    unfold klen at this
-    cases hp : ensureSlash m.pre with
-    | nil => exact hne hp
-    | cons a t => rw [hp] at this; simp at this
+    apply this
+    left
+    exact rankOf_pos hc.2.2
   · right
-    refine ⟨x, ⟨hx, hcx, ?_⟩, by rw [hr]⟩
-    intro y hy hcy
-    have := hB y hy hcy
+    refine ⟨x, r, ⟨hx, hcx, ?_⟩, by rw [hr]⟩
+    intro y hy t hcy
+    have := hB y hy t hcy
     rw [hr] at this
     exact this
 
 /-! ### the spec's `innermost` -/
 
-theorem innermost_none {cfg : Cfg} {path : Bytes} {c : List Mounted} :
-    innermost cfg path c = none ↔ c = [] := by
+/-- what the spec compares -/
+def ssc (cfg : Cfg) (cov : Cover) (path : Bytes) (m : Mounted) : Nat × Bytes :=
+  (reach cfg cov path m, mountedAt m.pre)
+
+theorem preferred_iff {cfg : Cfg} {cov : Cover} {path : Bytes} {x m : Mounted} :
+    preferred cfg cov path x m = true ↔ Pref (ssc cfg cov path x) (ssc cfg cov path m) := by
+  unfold preferred Pref ssc
+  simp [sortsBefore_eq_bytesLt]
+
+theorem innermost_none {cfg : Cfg} {cov : Cover} {path : Bytes} {c : List Mounted} :
+    innermost cfg cov path c = none ↔ c = [] := by
   cases c with
   | nil => simp [innermost]
   | cons m t =>
     simp only [innermost]
-    cases innermost cfg path t with
+    cases innermost cfg cov path t with
     | none => simp
-    | some x => by_cases h : reach cfg path x > reach cfg path m <;> simp [h]
+    | some x => by_cases h : preferred cfg cov path x m = true <;> simp [h]
 
-theorem innermost_some {cfg : Cfg} {path : Bytes} {c : List Mounted} {x : Mounted}
-    (h : innermost cfg path c = some x) :
-    x ∈ c ∧ ∀ y ∈ c, reach cfg path y ≤ reach cfg path x := by
+theorem innermost_some {cfg : Cfg} {cov : Cover} {path : Bytes} {c : List Mounted} {x : Mounted}
+    (h : innermost cfg cov path c = some x) :
+    x ∈ c ∧ ∀ y ∈ c, ¬ Pref (ssc cfg cov path y) (ssc cfg cov path x) := by
   induction c generalizing x with
   | nil => simp [innermost] at h
   | cons m t ih =>
     simp only [innermost] at h
-    cases ht : innermost cfg path t with
+    cases ht : innermost cfg cov path t with
     | none =>
       rw [ht] at h
       simp only [Option.some.injEq] at h
       subst h
       have : t = [] := innermost_none.mp ht
       subst this
-      simp
+      refine ⟨by simp, ?_⟩
+      intro y hy
+      simp only [List.mem_singleton] at hy
+      subst hy
+      exact pref_irrefl _
     | some z =>
       rw [ht] at h
       have ihz := ih ht
-      by_cases hgt : reach cfg path z > reach cfg path m
+      by_cases hgt : preferred cfg cov path z m = true
       · simp only [hgt, if_true, Option.some.injEq] at h
         subst h
         refine ⟨List.mem_cons_of_mem _ ihz.1, ?_⟩
         intro y hy
         rcases List.mem_cons.mp hy with rfl | hy
-        · omega
+        · exact pref_asymm (preferred_iff.mp hgt)
         · exact ihz.2 y hy
-      · simp only [hgt, if_false, Option.some.injEq] at h
+      · have hgt' : preferred cfg cov path z m = false := by simpa using hgt
+        simp only [hgt', Bool.false_eq_true, if_false, Option.some.injEq] at h
         subst h
+        have hzm : ¬ Pref (ssc cfg cov path z) (ssc cfg cov path m) := fun hh => hgt (preferred_iff.mpr hh)
         refine ⟨by simp, ?_⟩
         intro y hy
         rcases List.mem_cons.mp hy with rfl | hy
-        · omega
-        · have := ihz.2 y hy; omega
+        · exact pref_irrefl _
+        · exact not_pref_trans (ihz.2 y hy) hzm
 
-theorem mem_candidates {cfg : Cfg} {l : List Mounted} {path : Bytes} {m : Mounted} :
-    m ∈ candidates cfg l path ↔ m ∈ l ∧ m.pre ≠ [] ∧ m.own ≠ none ∧
-      (contains cfg m.pre path = true ∨ (coversPat cfg m.pre path).isSome = true) := by
+theorem mem_candidates {cfg : Cfg} {cov : Cover} {l : List Mounted} {path : Bytes} {m : Mounted} :
+    m ∈ candidates cfg cov l path ↔ m ∈ l ∧ m.pre ≠ [] ∧ m.own ≠ none ∧
+      (covers cfg cov m.pre path).isSome = true := by
   unfold candidates isCandidate
   rw [List.mem_filter]
-  constructor
-  · rintro ⟨hm, h⟩
-    simp only [Bool.and_eq_true, Bool.not_eq_true', List.isEmpty_eq_false_iff, Bool.or_eq_true] at h
-    refine ⟨hm, h.1.1, ?_, h.2⟩
-    intro hn; rw [hn] at h; simp at h
-  · rintro ⟨hm, h1, h2, h3⟩
-    refine ⟨hm, ?_⟩
-    simp only [Bool.and_eq_true, Bool.not_eq_true', List.isEmpty_eq_false_iff, Bool.or_eq_true]
-    refine ⟨⟨h1, ?_⟩, h3⟩
-    cases ho : m.own with
-    | none => exact absurd ho h2
-    | some _ => rfl
-
-/-- a literal candidate of the loop is a candidate of the spec, and the other way round -/
-theorem cand_iff_literal {cfg : Cfg} {path : Bytes} {m : Mounted} :
-    Cand cfg path m ↔ m.pre ≠ [] ∧ m.own ≠ none ∧ contains cfg m.pre path = true := by
-  unfold Cand
-  rw [hasMountPrefix_eq_contains']
-
-theorem reach_literal {cfg : Cfg} {path : Bytes} {m : Mounted} (h : contains cfg m.pre path = true) :
-    reach cfg path m = 2 * klen m + 1 := by
-  unfold reach klen mountedAt
-  simp [h]
-
-/-! ### parameter-free keys: the pattern reading is the literal reading -/
-
-/-- no segment of the (slashed) key starts with ':' -/
-def paramFree (k : Bytes) : Bool := (tokenize false false (mountedAt k)).all (· != .param)
-
-theorem tokenize_paramFree (ps : Bool) (k : Bytes)
-    (h : (tokenize false ps k).all (· != .param) = true) : tokenize false ps k = k.map .lit := by
-  induction k generalizing ps with
-  | nil => rfl
-  | cons c t ih =>
-    unfold tokenize at h ⊢
-    simp only [Bool.false_eq_true, if_false] at h ⊢
-    by_cases hp : c = 58 ∧ ps = true
-    · simp [hp] at h
-    · simp only [hp, if_false, List.all_cons, Bool.and_eq_true] at h ⊢
-      rw [ih _ h.2]; rfl
-
-theorem matchToks_lits (cfg : Cfg) (k path : Bytes) (n : Nat)
-    (h : matchToks cfg (k.map .lit) path = some n) :
-    n = k.length ∧ stripPrefix (fold cfg k) (fold cfg path) = some (fold cfg (path.drop k.length)) := by
-  induction k generalizing path n with
-  | nil =>
-    simp only [List.map_nil, matchToks, Option.some.injEq] at h
-    subst h
-    simp [fold, stripPrefix]
-  | cons c t ih =>
-    cases path with
-    | nil => simp [matchToks] at h
-    | cons d p =>
-      simp only [List.map_cons, matchToks] at h
-      by_cases hcd : fb cfg c = fb cfg d
-      · simp only [hcd, if_true, Option.map_eq_some_iff] at h
-        obtain ⟨n', hn', rfl⟩ := h
-        obtain ⟨h1, h2⟩ := ih p n' hn'
-        refine ⟨by simp [h1], ?_⟩
-        simp only [fold, List.map_cons, stripPrefix, hcd, if_true, List.length_cons, List.drop_succ_cons]
-        exact h2
-      · simp [hcd] at h
-
-/-- for a parameter-free key the pattern reading adds nothing to the literal one -/
-theorem coversPat_paramFree {cfg : Cfg} {k path : Bytes} (hpf : paramFree k = true)
-    (h : (coversPat cfg k path).isSome = true) : contains cfg k path = true := by
-  unfold coversPat at h
-  unfold paramFree at hpf
-  rw [tokenize_paramFree _ _ hpf] at h
-  cases hm : matchToks cfg ((mountedAt k).map .lit) path with
-  | none => simp [hm] at h
-  | some n =>
-    obtain ⟨hn, hs⟩ := matchToks_lits cfg _ _ _ hm
-    simp only [hm] at h
-    subst hn
-    unfold contains containsRaw
-    rw [hs]
-    simp only []
-    rw [fold_getLast_slash]
-    have hE : (fold cfg (List.drop (mountedAt k).length path)).isEmpty
-        = (List.drop (mountedAt k).length path).isEmpty := by
-      cases List.drop (mountedAt k).length path <;> rfl
-    have hH : ((fold cfg (List.drop (mountedAt k).length path)).head? == some 47)
-        = ((List.drop (mountedAt k).length path).head? == some 47) := by
-      have := fold_getElem_slash cfg (List.drop (mountedAt k).length path) 0
-      simpa [List.head?_eq_getElem?] using this
-    rw [hE, hH]
-    generalize ((List.drop (mountedAt k).length path).isEmpty ||
-        (List.drop (mountedAt k).length path).head? == some 47 ||
-        (mountedAt k).getLast? == some 47) = bb at h ⊢
-    cases bb with
-    | true => rfl
-    | false => simp at h
-
-/-! ### what the loop computes, for every table: the innermost LITERAL candidate -/
-
-def literalCandidates (cfg : Cfg) (l : List Mounted) (path : Bytes) : List Mounted :=
-  l.filter fun m => !m.pre.isEmpty && m.own.isSome && contains cfg m.pre path
-
-/-- the handler of the mounted app with the longest prefix among those that configured one and
-contain the path LITERALLY (as the router compares: leading slash, letter case) -/
-def selectLiteral (cfg : Cfg) (l : List Mounted) (path : Bytes) : Option Own :=
-  (innermost cfg path (literalCandidates cfg l path)).bind (·.own)
-
-theorem mem_literalCandidates {cfg : Cfg} {l : List Mounted} {path : Bytes} {m : Mounted} :
-    m ∈ literalCandidates cfg l path ↔ m ∈ l ∧ Cand cfg path m := by
-  unfold literalCandidates
-  rw [List.mem_filter, cand_iff_literal]
   constructor
   · rintro ⟨hm, h⟩
     simp only [Bool.and_eq_true, Bool.not_eq_true', List.isEmpty_eq_false_iff] at h
@@ -455,5 +524,81 @@ theorem mem_literalCandidates {cfg : Cfg} {l : List Mounted} {path : Bytes} {m :
     cases ho : m.own with
     | none => exact absurd ho h2
     | some _ => rfl
+
+/-! ### the code's reading of a pattern key, and the generic theorem -/
+
+/-- what the code computes for a key that is a route pattern: the parser made at startup, matched
+against the leading parts of the context's paths -/
+def modelCover (chk : C02.Constraint → Bytes → Bool) (cfg : Cfg) : Cover := fun k path =>
+  (parseKey cfg k).bind fun segs => mountPrefixLen chk segs (detOf cfg path) path
+
+theorem isPatternKey_eq (k : Bytes) : isPatternKey k = isPattern k := rfl
+
+/-- the rank the loop computes is the spec's reach, whenever the spec's reading of the key (if it
+is a pattern) is what the code computes -/
+theorem rankOf_eq_covers {chk cfg} {cov : Cover} {path k : Bytes}
+    (hcov : isPattern k = true → modelCover chk cfg k path = cov k path) :
+    rankOf chk cfg path k =
+      (covers cfg cov k path).map (fun n => if isPattern k then 2 * n else 2 * n + 1) := by
+  unfold rankOf covers
+  rw [isPatternKey_eq]
+  by_cases hp : isPattern k = true
+  · simp only [hp, if_true]
+    rw [← hcov hp]
+    unfold modelCover
+    cases parseKey cfg k with
+    | none => rfl
+    | some segs => simp
+  · simp only [hp]
+    rw [hasMountPrefix_eq_contains']
+    by_cases hc : contains cfg k path = true
+    · simp [hc, mountedAt]
+    · simp [hc]
+
+theorem cand_iff_spec {chk cfg} {cov : Cover} {path : Bytes} {m : Mounted} {r : Nat}
+    (hcov : isPattern m.pre = true → modelCover chk cfg m.pre path = cov m.pre path) :
+    Cand chk cfg path m r ↔ m.pre ≠ [] ∧ m.own ≠ none ∧ (covers cfg cov m.pre path).isSome = true ∧
+      reach cfg cov path m = r := by
+  unfold Cand reach
+  rw [rankOf_eq_covers hcov]
+  cases covers cfg cov m.pre path with
+  | none => simp
+  | some n => simp
+
+/-- Whatever reading `cov` of pattern prefixes the spec uses: if it is what the code computes for
+the pattern keys of the table, the loop returns the spec's choice. -/
+theorem select_eq_spec_of_cover (chk : C02.Constraint → Bytes → Bool) (cfg : Cfg) (cov : Cover) (l : List Mounted)
+    (path : Bytes) (hnd : (l.map (fun m => slashKey m.pre)).Nodup)
+    (hcov : ∀ m ∈ l, isPattern m.pre = true → modelCover chk cfg m.pre path = cov m.pre path) :
+    select chk cfg l path = selectSpec cfg cov l path := by
+  unfold selectSpec
+  rcases select_char chk cfg l path with ⟨hno, hs⟩ | ⟨x, r, hbest, hs⟩
+  · have : candidates cfg cov l path = [] := by
+      apply List.eq_nil_iff_forall_not_mem.mpr
+      intro m hm
+      have hm' := mem_candidates.mp hm
+      exact hno m hm'.1 (reach cfg cov path m)
+        ((cand_iff_spec (hcov m hm'.1)).mpr ⟨hm'.2.1, hm'.2.2.1, hm'.2.2.2, rfl⟩)
+    rw [hs, this]; rfl
+  · have hxs := (cand_iff_spec (hcov x hbest.1)).mp hbest.2.1
+    have hxc : x ∈ candidates cfg cov l path := mem_candidates.mpr ⟨hbest.1, hxs.1, hxs.2.1, hxs.2.2.1⟩
+    cases hi : innermost cfg cov path (candidates cfg cov l path) with
+    | none => rw [innermost_none.mp hi] at hxc; cases hxc
+    | some z =>
+      obtain ⟨hz, hzmax⟩ := innermost_some hi
+      have hzm := mem_candidates.mp hz
+      have hzc : Cand chk cfg path z (reach cfg cov path z) :=
+        (cand_iff_spec (hcov z hzm.1)).mpr ⟨hzm.2.1, hzm.2.2.1, hzm.2.2.2, rfl⟩
+      have hzb : Best chk cfg l path z (reach cfg cov path z) := by
+        refine ⟨hzm.1, hzc, ?_⟩
+        intro y hy t hcy
+        have hys := (cand_iff_spec (hcov y hy)).mp hcy
+        have := hzmax y (mem_candidates.mpr ⟨hy, hys.1, hys.2.1, hys.2.2.1⟩)
+        unfold ssc at this
+        rw [hys.2.2.2] at this
+        exact this
+      have := best_unique hnd hbest hzb
+      subst this
+      rw [hs]; rfl
 
 end C08
